@@ -7,5 +7,6 @@ CONSTANTS W = 2
           RepW = 0
           Which = "all"
           MutualFull = FALSE
+          Repaired = {8, 9, 11}
 INVARIANTS L2SoundModulo
 CHECK_DEADLOCK FALSE
